@@ -582,7 +582,7 @@ theorem sim_step_expr (e : Expr) : Post ObjRel s (stepS evS c e s) (step ev C e)
   | ucall f args kw =>
     simp only [stepS, step]
     rw [bind_run]
-    show Post ObjRel s ((match getFun s.cells c f with
+    show Post ObjRel s ((match getFun s.cells c (fnKey f) with
       | none => fail .unknownFunction
       | some (body, D) => do
         let names ← liftR (kwNames kw)
@@ -593,9 +593,9 @@ theorem sim_step_expr (e : Expr) : Post ObjRel s (stepS evS c e s) (step ev C e)
         publishPos V 1 vs
         publishNamed V (names.zip kvs)
         evS V body : M ObjS) s) _
-    have hg := getFun_rel hwf hC f
+    have hg := getFun_rel hwf hC (fnKey f)
     revert hg
-    cases getFun s.cells c f <;> cases Ctx.getFun C f <;> simp only [] <;> intro hg
+    cases getFun s.cells c (fnKey f) <;> cases Ctx.getFun C (fnKey f) <;> simp only [] <;> intro hg
     · exact post_fail _ hwf
     · exact hg.elim
     · exact hg.elim
